@@ -525,6 +525,8 @@ func sweepInputs(c *Ctx) []buildInput {
 	for k := 0; k < nchains; k++ {
 		ins = append(ins, chainInput(r))
 	}
+	// every filler in every gap of the skeleton of every block statement (c04struct.go)
+	ins = append(ins, structuralInputs(c.Thorough())...)
 	// every truncation of corpus files
 	nfiles := 6
 	if c.Thorough() {
